@@ -44,11 +44,19 @@ def render_chunk(names, seqs, ch):
         rows = gapped_rows(seqs, frac, ch.get("seed", 0), "-", equal=True, min_width=ch.get("min_width", 0)) if (frac > 0 or fmt != "fasta") else list(seqs)
     elif gm == "random":
         rows = gapped_rows(seqs, min(0.9, ch.get("gapfrac", 0.3)), ch.get("seed", 0), "-", equal=False)
+    elif gm == "tail":
+        # gap / punctuation characters only behind the last residue, a different number per record (ragged end padding,
+        # '*' terminators)
+        rnd = random.Random(ch.get("seed", 0))
+        rows = [s + "".join(rnd.choice("-.*") if ch.get("tailmix") else "-" for _ in range(rnd.choice([0, 1, 1, 2, 5, 17]))) for s in seqs]
+        if not any(r != s for r, s in zip(rows, seqs)) and rows:
+            rows[-1] += "-"
     else:
         rows = list(seqs)
     eol = ch.get("eol", "\n")
     if fmt == "fasta":
-        rows = [r.replace("-", gc if gc in "-." else "-") for r in rows]
+        if gm != "tail":
+            rows = [r.replace("-", gc if gc in "-." else "-") for r in rows]
         return formats.write_fasta(names, rows, width=ch.get("width", 60), eol=eol, trail=ch.get("trail", ""),
                                    blank_before=ch.get("blank", 0), lead_blank=ch.get("lead_blank", 0))
     if fmt == "msf":
